@@ -64,6 +64,24 @@ pub fn set_state<Op: serde::Serialize>(hist: &[Op], ops: &[Op]) {
     slot.started_ms.store(now_ms(), Ordering::Release);
 }
 
+/// Record a ready-made replay object (JSON text) for modes other than BFS.
+pub fn set_replay(json_text: &str) {
+    let w = crate::env::WORKER.with(|c| c.get()) % NW;
+    let slot = &SLOTS[w];
+    let b = json_text.as_bytes();
+    slot.len.store(0, Ordering::Release);
+    let pre = b"\"replay\":";
+    if b.len() + pre.len() <= CAP {
+        unsafe {
+            (&mut *slot.buf.get())[..pre.len()].copy_from_slice(pre);
+            (&mut *slot.buf.get())[pre.len()..pre.len() + b.len()].copy_from_slice(b);
+        }
+        slot.len.store(pre.len() + b.len(), Ordering::Release);
+    }
+    slot.op.store(-1, Ordering::Release);
+    slot.started_ms.store(now_ms(), Ordering::Release);
+}
+
 /// Record which operation (index into the state's ops; -1 = state probes) is
 /// being executed, and restart the watchdog clock.
 #[inline]
